@@ -628,7 +628,11 @@ fn doc_kind(k: usize) -> DAct {
 		5 => DAct::Add(vec![]), 6 => DAct::Remove(vec![]), 7 => DAct::Edit(vec![], vec![]), 8 => DAct::Edit(vec![], s("doc")), _ => DAct::Edit(s("doc"), vec![]),
 	}
 }
-const CLASS_KEYS: [&str; 12] = ["A", "pkg/A", "a/Outer$Inner", "A$B$C", "pkg/A$1", "$B", "A$", "a/$B", "A$b/C", "a$b/Outer$In", "$", "a/b$/C$D"];
+const CLASS_KEYS: [&str; 23] = ["A", "pkg/A", "a/Outer$Inner", "A$B$C", "pkg/A$1", "$B", "A$", "a/$B", "A$b/C", "a$b/Outer$In", "$", "a/b$/C$D",
+	// round 5: a simple name that STARTS with `$` at every level - default package, one / several package levels, as the outer part of a
+	// further `$`, doubled, numeric, behind a package component that itself contains `$`, `$` as a whole package component.
+	// Only a `$` with a non-empty outer part that does not end in `/` splits: com/example/$Proxy is NOT contracted to Proxy.
+	"com/example/$Proxy", "a/b/c/$D", "$B$C", "a/$B$C", "a/$$B", "a/$1", "$1", "a/b$c/$D", "a/$/B", "pkg/Outer$$Inner", "com/sun/proxy/$Proxy12"];
 const PARAM_INDICES: [u64; 6] = [0, 3, 10, 255, 4294967296, u64::MAX];
 
 fn dparam(index: u64, ik: usize, dk: usize) -> DParam { DParam { index, info: info_kind(ik, &s(&format!("p_{index}"))), doc: doc_kind(dk) } }
@@ -719,6 +723,9 @@ fn gen_diff(rng: &mut Rng, max_classes: usize) -> DDiff {
 	const MN: [&str; 8] = ["a", "foo", "f_1", "m_2", "get", "<init>", "value", "x"];
 	const PN: [&str; 6] = ["p_1", "arg", "value", "p_0", "p_3", "x"];
 	let mut classes = vec![];
+	// one class key in five has one of the special shapes (leading `$` in the simple name at some package depth, `$` at the end, …)
+	let mut srcs = srcs;
+	for i in 0..srcs.len() { if rng.chance(1, 5) { let k = s(*rng.pick(&CLASS_KEYS[..])); if !srcs.contains(&k) { srcs[i] = k; } } }
 	for src in &srcs {
 		let mut c = DClass { name: src.clone(), info: gen_act(rng, &ref_simple_inner(src), &CN[..]), doc: gen_doc_act(rng), fields: vec![], methods: vec![] };
 		for _ in 0..rng.below(4) {
@@ -782,7 +789,7 @@ pub fn run(ctx: &Ctx) -> anyhow::Result<Report> {
 	let _quiet = QuietStderr::new();
 	let mut r = Report::new("C10", "C10.Run");
 	let mut rng = Rng::new(ctx.seed);
-	r.rule = "remove_dummy: (1) level tables, exhaustive: every name kind of a level (placeholder, net/minecraft/unmapped/C_…, pkg/C_…, nested Outer$C_…, placeholder prefix followed by `/…`, `$…` or letters (C_12/Foo, net/minecraft/unmapped/C_5/Bar, C_1$Inner, C_abc, f_abc$x, p_1x: a pure prefix rule), look-alikes of the class prefixes (com/example/gl/C_Api, com/example/C_Holder$Inner — C_ only in the simple name —, C, net/minecraft/unmapped/ alone, net/minecraft/unmappedC_x, net/minecraft/unmapped/c_1, Net/Minecraft/Unmapped/C_1, minecraft/unmapped/C_1, com/net/minecraft/unmapped/C_1, net/minecraft/unmapped/sub/C_1, net/minecraft/unmapped/Outer$C_1, _C_1, net/minecraft/unmapped/C1), prefix in the middle, name ending with the prefix, prefix without the underscore, real, absent, bare prefix, other case, <init>, <clinit>, <init>x, x<init>, other level's prefix) x comment yes/no, against representative parents and children (none / removed / kept by comment / kept by name), for chosen namespace = second (source names real or placeholder-like) and = first; (1a) the EMPTY comment Some(\"\") at every level for every name kind under comment-free placeholder parents (it is a comment: entry and parents stay), and as one comment in six of the product sample and one in twelve of the random trees; the comment of the mapping set itself is absent / present / empty (table paths by class kind, random trees at random) and must come back unchanged; (2) the product of the four levels for single-path trees of depth 4: a random sample over all kinds (quick 1000, thorough 15000 of ~795 000) and, thorough only, the full product over the reduced kind sets (8 190); (3) random bushy trees from mapmodel::gen_mappings with 2-4 namespaces pushed towards placeholder names, every namespace chosen in turn, plus an unknown and a duplicated namespace name. insert_dummy: level tables 9 name actions (None, Add, Remove(old), Remove(placeholder), Edit, Edit(same,same), …) x 5 comment actions x representative children and parents, the 5 comment actions with the empty comment (Add(\"\"), Remove(\"\"), Edit(\"\",\"\") = no change, Edit(\"\",a), Edit(a,\"\")) x 9 name actions at every level against reduced surroundings, 12 class-key shapes for the simple-inner-name placeholder, parameter indices up to usize::MAX; random bushy diffs and a shuffled copy. Non-trivial: the tree is non-empty and the call returned Ok; distinct by the Gallina text of input + namespace.".into();
+	r.rule = "remove_dummy: (1) level tables, exhaustive: every name kind of a level (placeholder, net/minecraft/unmapped/C_…, pkg/C_…, nested Outer$C_…, placeholder prefix followed by `/…`, `$…` or letters (C_12/Foo, net/minecraft/unmapped/C_5/Bar, C_1$Inner, C_abc, f_abc$x, p_1x: a pure prefix rule), look-alikes of the class prefixes (com/example/gl/C_Api, com/example/C_Holder$Inner — C_ only in the simple name —, C, net/minecraft/unmapped/ alone, net/minecraft/unmappedC_x, net/minecraft/unmapped/c_1, Net/Minecraft/Unmapped/C_1, minecraft/unmapped/C_1, com/net/minecraft/unmapped/C_1, net/minecraft/unmapped/sub/C_1, net/minecraft/unmapped/Outer$C_1, _C_1, net/minecraft/unmapped/C1), prefix in the middle, name ending with the prefix, prefix without the underscore, real, absent, bare prefix, other case, <init>, <clinit>, <init>x, x<init>, other level's prefix) x comment yes/no, against representative parents and children (none / removed / kept by comment / kept by name), for chosen namespace = second (source names real or placeholder-like) and = first; (1a) the EMPTY comment Some(\"\") at every level for every name kind under comment-free placeholder parents (it is a comment: entry and parents stay), and as one comment in six of the product sample and one in twelve of the random trees; the comment of the mapping set itself is absent / present / empty (table paths by class kind, random trees at random) and must come back unchanged; (2) the product of the four levels for single-path trees of depth 4: a random sample over all kinds (quick 1000, thorough 15000 of ~795 000) and, thorough only, the full product over the reduced kind sets (8 190); (3) random bushy trees from mapmodel::gen_mappings with 2-4 namespaces pushed towards placeholder names, every namespace chosen in turn, plus an unknown and a duplicated namespace name. insert_dummy: level tables 9 name actions (None, Add, Remove(old), Remove(placeholder), Edit, Edit(same,same), …) x 5 comment actions x representative children and parents, the 5 comment actions with the empty comment (Add(\"\"), Remove(\"\"), Edit(\"\",\"\") = no change, Edit(\"\",a), Edit(a,\"\")) x 9 name actions at every level against reduced surroundings, 23 class-key shapes for the simple-inner-name placeholder (among them simple names that start with `$` in the default package, in one / several package levels, as outer part of a further `$`, doubled, numeric, behind a package component containing `$`; also used as one class key in five of the random diffs), parameter indices up to usize::MAX; random bushy diffs and a shuffled copy. Non-trivial: the tree is non-empty and the call returned Ok; distinct by the Gallina text of input + namespace.".into();
 
 	// decimal printing and inner-class names, on their own
 	for n in [0u64, 1, 9, 10, 11, 99, 100, 101, 255, 256, 999, 1000, 65535, 65536, 4294967295, 4294967296, 9999999999, 10000000000, u64::MAX - 1, u64::MAX] {
